@@ -407,6 +407,42 @@ PROPS = {
             "UTF-8 encoding of the characters by the sink (std)",
         ],
     },
+    "C18": {
+        "title": "Logging front end: the request / response wrapper (deductive) and tag order / isolation on one thread (bounded)",
+        "design_ref": "DESIGN.md section 3 (C18)",
+        "technique": "Verus contracts on the real log_response and log_request_and_response (src/log/mod.rs) over an abstract logger (`log` as a "
+                     "stand-in whose only effect is the uninterpreted fact was_logged(level, tags)); everything about tag order, thread-local tags and the "
+                     "installed logger only by a bounded stand-in that installs a capturing logger",
+        "level_text": "Deductive proof for every handler result: log_response returns the handler's own response for Ok, the error's response for an "
+                      "Err that has one and the bare 500 otherwise; it hands the logger exactly the event [code, response_body_len when the length is "
+                      "known] at info for a response and [the error's own tags, its message, (its backtrace,) code, response_body_len] at error for an "
+                      "error; a stopped logger comes back as Err (the `?`), never as a panic. log_request_and_response returns exactly what "
+                      "log_response makes of whatever the handler returned for that request.",
+        "level_note": "Partial claim. Not within the technique: that each call produces exactly one event *at the installed logger* under concurrent "
+                      "install / clear, that tags of other threads never leak under real concurrency, the stdout default logger -- these need the "
+                      "global mutex, the channel and thread_local! (no Verus model). Bounded only (stand-in c18, one thread plus one helper thread, "
+                      "capturing logger through set_global_logger, events read back through write_jsonl): msg / http_method / path / request_body_len / "
+                      "request_body / response_body_len first in that order and the other tags in the order given, thread-local tags appended and "
+                      "cleared, a foreign thread's tag absent, the three levels, the wrapper starting from a clean tag set and carrying the request's "
+                      "tags, a stopped logger as Err. Assumed: Tag::new stores the name and the converted value (tv_of), "
+                      "`e.response.unwrap_or_else(Response::internal_server_error_500)` as `the error's response or the bare 500` (rule S1; the "
+                      "constructor is under a Kani harness in C20), ResponseBody::len (proved in unit respwrite).",
+        "verus": ["logwrap"],
+        "verus_thorough": [],
+        "kani": [],
+        "witness": "c18",
+        "assumptions": [
+            "assumed: `log(time, level, tags)` delivers exactly one event with that level and those tags to the installed logger or returns LoggerStoppedError (stand-in; was_logged is uninterpreted)",
+            "assumed: Tag::new(name, value) == Tag { name, value: value.into() } with the conversion kept abstract (tv_of)",
+            "rule S1 stand-ins: `e.response.unwrap_or_else(Response::internal_server_error_500)`, `before.elapsed().as_millis()`; the thread-local tag operations are opaque calls",
+        ],
+        "not_covered": [
+            "exactly-once delivery and routing under concurrent set_global_logger / drop, the default stdout logger",
+            "thread-local isolation under real concurrency (bounded c18 checks it with one sequential helper thread)",
+            "the tag ordering inside `log` (sort_by_key with a closure over string literals): bounded c18 only",
+            "info / error / debug front functions (tags.insert(0, msg)): bounded c18 only",
+        ],
+    },
     "C03": {
         "title": "Message framing comes only from the headers",
         "design_ref": "DESIGN.md section 4 (C03)",
@@ -514,7 +550,7 @@ PROPS = {
 # are listed in its evidence as notes (they are another property's alarm, or an unproved supporting contract).
 UNIT_OWNER = {
     "time": "C16", "chunked": "C07", "headers": "C14", "copy": "C09", "body": "C09", "conn": "C05", "head": "C01",
-    "parse": "C02", "logset": "C19", "logwriter": "C19", "jsonl": "C17", "cookie": "C15", "timefmt": "C16", "tryread": "C02", "framing": "C03", "respguard": "C06", "respwrite": "C06", "errresp": "C20",
+    "parse": "C02", "logset": "C19", "logwriter": "C19", "jsonl": "C17", "cookie": "C15", "timefmt": "C16", "tryread": "C02", "logwrap": "C18", "framing": "C03", "respguard": "C06", "respwrite": "C06", "errresp": "C20",
 }
 SCOPE = {
     # total request reading also needs the parsers to be panic-free
@@ -556,5 +592,4 @@ NOT_APPLICABLE = {
     "C11": "sender / writer interleavings are concurrency (bounded channel between threads); the encoder is write! + str::lines, outside both verifiers; the one contract-level fact -- EventReceiver can return Ok(0) for an event with empty data, which copy_chunked_async's contract reads as end of stream -- is recorded in C07's assumptions",
     "C12": "the slot pool is a channel mutated through &self from several tasks / threads and refilled in Drop; expressing it needs Verus' atomic-invariant machinery inside the real types, and Kani has no thread or channel support",
     "C13": "a liveness / race property of accept_loop's await points against permit revocation; deductive contracts on sequentialised code cannot express it",
-    "C18": "thread-local tag isolation and exactly-once routing through a global mutex and channels under concurrent install / clear; concurrency is outside contract-based verification of sequentialised code",
 }
